@@ -28,6 +28,11 @@ CHECKS["C15"] = dict(level="model_checking", design="5 C15",
    note="A removed field is never re-added in one behaviour (its old column may legitimately still be on disk). Tables never hold two fields with the same expression text (see DESIGN.md, observation O2).",
    technique="TLA+ model checking (TLC) + replay of TLC behaviours into the real code + trace validation")
 
+CHECKS["C18"] = dict(level="model_checking", design="5 C18",
+   text="In spec/Store.tla a scan returns the view captured at its start (rowStore.iterate under the read lock); the real database is driven with scans held after their j-th row while further inserts, row-store applies and flush steps are pushed through the scheduler gates (TLC-simulated interleavings plus directed placements into delivered, undelivered and new rows), and the held scan's result is bound by trace validation to the view the specification captured at its start.",
+   note="The scan is held by blocking its row callback after flat row j = 1..4; inserts during the scan are confirmed applied (rs.apply) before the scan is released. Free-running concurrent scans are not part of this check.",
+   technique="TLA+ trace validation (TLC) of gate-scheduled executions of the real code + TLC-simulated interleavings")
+
 NOT_YET = {}
 
 
